@@ -422,7 +422,7 @@ INVM_DUR = [F(0), F(1, 2), F(1), F(5, 2), F(4)]
 INVM_START3 = [F(0), F(1, 2), F(1), F(2)]
 INVM_DUR3 = [F(1, 2), F(1), F(5, 2)]
 INVM_TS_TRIP = [["cols", 3, 4], ["cols", 6, 8], ["arg", 4, 4]]
-INVM_PICKUP_TRIP = [F(0), F(1, 3), F(2, 3), F(1), F(4, 3)]
+INVM_PICKUP_TRIP = [F(0), F(1, 3), F(2, 3), F(1), F(4, 3), F(3, 2)]  # (3/2: last negative onset -7/6, -5/6; repaired in /repo e6b4838)
 INVM_START_TRIP = [F(0), F(1, 3), F(2, 3), F(1), F(2)]
 INVM_DUR_TRIP = [F(1, 3), F(2, 3), F(1), F(2)]
 INVM_PITCH = {1: [(60,)], 2: [(60, 64), (61, 61)], 3: [(60, 64, 67)]}
